@@ -278,7 +278,7 @@ func downstream(cmds []ast.Command, comments []*ast.Comment, r wproto.Req, resp 
 	}
 	for _, c := range cmds {
 		for i := int(r.Lo); i < int(r.Hi) && i < 256; i++ {
-			cfg := config(i | int(r.Width)<<8)
+			cfg := config(i | int(r.Width)<<8 | (i%8)<<11)
 			var b bytes.Buffer
 			if err := cfg.Fprint(&b, c); err != nil {
 				resp.Note = "Fprint: " + err.Error()
@@ -335,7 +335,7 @@ func config(i int) printer.Config {
 	}
 	if bit(1) {
 		// bits 8 and up select another width
-		c.Width = []int{2, 1, 4, 8, 16, 33, -1}[(i>>8)%7]
+		c.Width = []int{2, 1, 4, 8, 16, 33, -1}[((i>>8)&7)%7]
 	}
 	c.Redir = printer.After
 	if bit(2) {
@@ -354,6 +354,17 @@ func config(i int) printer.Config {
 	c.Case = bit(6)
 	if bit(7) {
 		c.Then = printer.Newline
+	}
+	// bits 11-13: leave the fields whose documented default was chosen at
+	// their zero value instead of naming the default
+	if bit(11) && c.Indent == printer.Tab {
+		c.Indent = 0
+	}
+	if bit(12) {
+		c.Redir &^= printer.After
+	}
+	if bit(13) && c.Assign == printer.Before {
+		c.Assign = 0
 	}
 	return c
 }
